@@ -69,6 +69,11 @@ def rollAxisNeg (t : Tensor K) (axis k : ℕ) : Tensor K :=
   let n := t.shape.getD axis 1
   reindexAxis t axis n (fun r => (r + k) % n)
 
+/-- `np.roll(t, k, axis)` for `k ≥ 0`: new[r] = old[(r - k) mod n]. -/
+def rollAxisPos (t : Tensor K) (axis k : ℕ) : Tensor K :=
+  let n := t.shape.getD axis 1
+  reindexAxis t axis n (fun r => (r + (n - k % n)) % n)
+
 /-- Fix index `j` along `axis` (the axis disappears). -/
 def takeAxis (t : Tensor K) (axis j : ℕ) : Tensor K :=
   let r := reindexAxis t axis 1 (fun _ => j)
